@@ -1003,7 +1003,9 @@ impl<'a> Gen<'a> {
         self.p.shuffle(&mut params);
         let ret = self.any_ty(1);
         let n = self.p.range(0, 4) as usize;
-        let main = self.gen_fn("main", true, params, ret, n, 3);
+        // one program in twelve has no `main` at all (asking for it must then fail the same way everywhere)
+        let main_name = if self.p.chance(1, 12) { "entry" } else { "main" };
+        let main = self.gen_fn(main_name, true, params, ret, n, 3);
         let mut extra = vec![];
         if self.p.chance(1, 4) {
             let it2 = self.int_ty();
@@ -1233,6 +1235,20 @@ pub fn big_program(p: &mut Prng) -> String {
 /// `ordered`: every binary operation takes its operands in parameter order (p0 op p1, never
 /// p1 op p0), so the program contains (almost) no commuted duplicates — a homogeneous workload for
 /// adaptive, statistics-driven heuristics.
+/// Several million gates: beyond the 2^20 mark where table caps and similar thresholds sit.
+pub fn huge_program(p: &mut Prng) -> String {
+    let n = p.range(3, 4) as usize;
+    let params: Vec<String> = (0..n).map(|i| format!("p{i}")).collect();
+    let sig = params.iter().map(|n| format!("{n}: u64")).collect::<Vec<_>>().join(", ");
+    let pick = |p: &mut Prng| params[p.usize_below(params.len())].clone();
+    let mut terms = vec![];
+    for _ in 0..p.range(44, 60) {
+        let op = *p.pick(&["*", "/", "%", "/", "*"]);
+        terms.push(format!("(({} {op} {}) {} {})", pick(p), pick(p), p.pick(&["/", "*", "%"]), pick(p)));
+    }
+    format!("pub fn main({sig}) -> u64 {{\n    {}\n}}\n", terms.join(" ^ "))
+}
+
 pub fn big_program_with(p: &mut Prng, ordered: bool) -> String {
     let ty = *p.pick(&["u64", "u64", "i64", "u32"]);
     let n = p.range(2, 4) as usize;
